@@ -116,6 +116,8 @@ var headers = []string{
 	"on:\n  push:\n    branches: [main]\n  workflow_dispatch:\n    inputs:\n      level:\n        type: choice\n        options: [a, b]\n      dry:\n        type: boolean\n",
 	"on:\n  pull_request:\n    types: [opened, synchronize]\nenv:\n  TOP: level\ndefaults:\n  run:\n    shell: bash\n",
 	"on: push\npermissions:\n  contents: read\nconcurrency:\n  group: ${{ github.ref }}\n",
+	// dispatch inputs that happen to be called like the two special keys of a matrix
+	"on:\n  workflow_dispatch:\n    inputs:\n      include:\n        type: string\n      exclude:\n        type: string\n      os:\n        type: string\n",
 }
 
 // Whole-workflow tie-makers (layouts the block-style fragments cannot express).
@@ -203,6 +205,14 @@ var frags = []*Frag{
 	{Name: "dashed-ids-2", Jobs: []FragJob{{ID: "deploy-prod", Body: "    runs-on: ubuntu-latest\n    steps:\n      - id: check\n        run: echo two\n      - id: other\n        run: echo ${{ steps.check.outputs.y }}\n"}}},
 	// a matrix without rows whose include mixes an expression with literal combinations, and a job that reads github.event
 	{Name: "matrix-include-expr-then-literal", Jobs: []FragJob{{ID: "{P}mie", Body: "    strategy:\n      matrix:\n        include:\n          - ${{ github.event }}\n          - release: x\n            action: y\n    runs-on: ubuntu-latest\n    steps:\n      - run: echo ${{ matrix.release }}\n"}}},
+	// a matrix that is a whole context object, and other jobs reading the same object
+	{Name: "matrix-from-inputs", Jobs: []FragJob{{ID: "{P}mfi", Body: "    strategy:\n      matrix: ${{ inputs }}\n    runs-on: ubuntu-latest\n    steps:\n      - run: echo ${{ matrix.os }}\n"}}},
+	{Name: "matrix-from-event-inputs", Jobs: []FragJob{{ID: "{P}mfe", Body: "    strategy:\n      matrix: ${{ github.event.inputs }}\n    runs-on: ubuntu-latest\n    steps:\n      - run: echo ${{ matrix.os }}\n"}}},
+	{Name: "inputs-named-like-matrix-keys", Jobs: []FragJob{{ID: "{P}inm", Body: "    runs-on: ubuntu-latest\n    steps:\n      - run: echo \"${{ inputs.include }} ${{ inputs.os }}\"\n      - run: echo \"${{ inputs.exclude }}\"\n      - run: echo \"${{ github.event.inputs.include }} ${{ github.event.inputs.exclude }}\"\n"}}},
+	{Name: "matrix-from-inputs-and-reader", Jobs: []FragJob{
+		{ID: "{P}mfr1", Body: "    strategy:\n      matrix: ${{ inputs }}\n    runs-on: ubuntu-latest\n    steps:\n      - run: echo ${{ matrix.os }}\n"},
+		{ID: "{P}mfr2", Body: "    runs-on: ubuntu-latest\n    steps:\n      - run: echo \"${{ inputs.include }} ${{ inputs.exclude }}\"\n"},
+	}},
 	{Name: "github-event-release", Jobs: []FragJob{{ID: "{P}ger", Body: "    runs-on: ubuntu-latest\n    steps:\n      - run: echo \"${{ github.event.release.tag_name }} ${{ github.event.action }} ${{ github.event.release.nope.deeper }}\"\n"}}},
 	// the arrays of an event payload, once with .* and once with a property taken from the array itself
 	{Name: "github-event-arrays-star", Jobs: []FragJob{{ID: "{P}gas", Body: "    runs-on: ubuntu-latest\n    steps:\n      - run: echo \"${{ join(github.event.commits.*.id, ',') }} ${{ join(github.event.pages.*.action, ',') }}\"\n"}}},
